@@ -74,19 +74,27 @@ pub enum MatchTypePattern {
 
 impl MatchTypePattern {
     pub fn from_type_str(s: &str) -> Self {
+        match Self::try_from_type_str(s) {
+            Some(pattern) => pattern,
+            None => panic!("Unknown type"),
+        }
+    }
+
+    /// The pattern for a type name, or None for a type that cannot be matched on.
+    pub fn try_from_type_str(s: &str) -> Option<Self> {
         match s {
-            "int" => MatchTypePattern::Int,
-            "uint" => MatchTypePattern::Uint,
-            "float" | "double" => MatchTypePattern::Float,
-            "string" => MatchTypePattern::String,
-            "bool" => MatchTypePattern::Bool,
-            "bytes" => MatchTypePattern::Bytes,
-            "list" => MatchTypePattern::List,
-            "object" => MatchTypePattern::Object,
-            "null" => MatchTypePattern::Null,
-            "timestamp" => MatchTypePattern::Timestamp,
-            "duration" => MatchTypePattern::Duration,
-            _ => panic!("Unknown type"),
+            "int" => Some(MatchTypePattern::Int),
+            "uint" => Some(MatchTypePattern::Uint),
+            "float" | "double" => Some(MatchTypePattern::Float),
+            "string" => Some(MatchTypePattern::String),
+            "bool" => Some(MatchTypePattern::Bool),
+            "bytes" => Some(MatchTypePattern::Bytes),
+            "list" => Some(MatchTypePattern::List),
+            "object" => Some(MatchTypePattern::Object),
+            "null" => Some(MatchTypePattern::Null),
+            "timestamp" => Some(MatchTypePattern::Timestamp),
+            "duration" => Some(MatchTypePattern::Duration),
+            _ => None,
         }
     }
 }
